@@ -266,6 +266,7 @@ class FuncSpec:
         self.modifies = None        # None = unspecified (pure for contract calls means nothing modified)
         self.loops = {}
         self.params = {}            # path -> FuncSpec (kind param)
+        self.calls = {}             # callee name -> FuncSpec: in-context (assumed) contract of an external callee
         self.sends = {}             # channel path -> FuncSpec (contract of a send on that channel)
         self.closes = {}            # channel path -> FuncSpec (contract of close(ch))
         self.ghost = []             # (name, sort)
@@ -336,6 +337,23 @@ class Specs:
         self.errors = []
 
 
+def split_top(s):
+    """split on commas that are not inside parentheses / brackets"""
+    out, depth, cur = [], 0, ''
+    for ch in s:
+        if ch in '([':
+            depth += 1
+        elif ch in ')]':
+            depth -= 1
+        if ch == ',' and depth == 0:
+            out.append(cur)
+            cur = ''
+        else:
+            cur += ch
+    out.append(cur)
+    return [x.strip() for x in out if x.strip()]
+
+
 def parse_params(s):
     out = []
     s = s.strip()
@@ -377,7 +395,7 @@ def logical_lines(path, go_file):
 KEYWORDS = ('func', 'iface', 'assume', 'spec', 'lemma', 'axiom', 'const', 'arith', 'ghost', 'requires', 'ensures',
             'modifies', 'nonnil', 'loop', 'invariant', 'decreases', 'param', 'inline', 'assert-call', 'trusted',
             'args', 'results', 'report', 'using', 'flag', 'pure', 'import', 'assert-at', 'owns', 'fork',
-            'deterministic', 'guarded', 'send', 'closes')
+            'deterministic', 'guarded', 'send', 'closes', 'call')
 
 
 def join_continuations(raw):
@@ -498,7 +516,7 @@ def parse_file(path, specs, pkgpath=None, go_file=True, allow_assume=False):
                 lab, e = split_label(rest)
                 cur.ensures.append(Clause('ensures', e, lab, ln, where))
             elif kw == 'modifies':
-                locs = [x.strip() for x in rest.split(',') if x.strip()]
+                locs = split_top(rest)
                 if cur_loop is not None and cur is cur_top:
                     cur_loop.modifies = (cur_loop.modifies or []) + locs
                 else:
@@ -524,6 +542,14 @@ def parse_file(path, specs, pkgpath=None, go_file=True, allow_assume=False):
                 path_ = rest.rstrip(':').strip()
                 ps = FuncSpec(path_, 'param', src=where)
                 cur_top.params[path_] = ps
+                cur = ps
+                cur_loop = None
+                sub_indent = indent
+            elif kw == 'call':
+                path_ = rest.rstrip(':').strip()
+                ps = FuncSpec(path_, 'param', src=where)
+                ps.in_context = True
+                cur_top.calls[path_] = ps
                 cur = ps
                 cur_loop = None
                 sub_indent = indent
